@@ -175,21 +175,7 @@ def eval_default(self, fi, node):
     return v
 
 
-def _load_baseline():
-    """names of the package functions that existed when the rules were written.  Only an analysis-precision policy
-    hangs on it: the depth bound of the inliner applies to THESE; a function that is not listed (a helper that a later
-    refactoring extracted, a renamed function) is always analysed through its body, so extract-method edits do not
-    turn known arithmetic into an opaque call."""
-    import os
-    p = os.path.join(os.path.dirname(os.path.abspath(__file__)), 'baseline_functions.txt')
-    try:
-        with open(p) as f:
-            return {l.strip() for l in f if l.strip()}
-    except OSError:
-        return set()
-
-
-BASELINE_FUNCS = _load_baseline()
+from .baseline import BASELINE_FUNCS
 
 
 def call_package(self, fi, pos, kw, self_term, self_cls, node, fr, star=None, dstar=None, cls_term=None):
@@ -263,6 +249,10 @@ def call_closure(self, cl, ca, pos, kw, node, fr):
     f2 = Frame_(fi, env, cl.self_term, cl.self_cls, len(self.pc), depth,
                 fr.stack + ((fr.fi.short, getattr(node, 'lineno', 0)),))
     ret, live = self._run_frame(f2)
+    # exception propagation, as for package functions: the caller continues only where the closure returns
+    okc = T.mk_or([c for c, _ in f2.returns] + [live])
+    if okc.key != TRUE.key:
+        self.pending.append(okc)
     return ret
 
 
@@ -477,6 +467,11 @@ def call_external(self, dotted, pos, kw, node, fr):
     parts = dotted.split('.')
     root, last = parts[0], parts[-1]
     self.emit('call', node, fr, name=dotted, resolved=None, args=pos, kwargs=kw, external=True)
+    if dotted in ('sys.exit', 'os._exit', 'os.abort'):
+        # does not return: like raising SystemExit
+        self.emit('raise', node, fr, exc=T.mk_call('SystemExit', pos))
+        self.pending.append(FALSE)
+        return Term.of(Atom('noreturn'))
     if root in ('numpy', 'scipy'):
         T.MODELLED.add(T.SYN.get(last, last))     # library functions have fixed semantics: distinct names, distinct functions
         outs = [k for k in getattr(node, 'keywords', []) if k.arg == 'out']
